@@ -33,7 +33,7 @@ claim("C10", "other", "typestate dataflow (cursor validation), store classificat
       "Decides structural necessary conditions: in package mlink every access to the links through a cursor's current position is preceded on all paths by a validation of that "
       "very position (so a stale cursor panics, never hangs or edits), the validator tests exactly the marker the detach sites write, every link store that drops entries is "
       "preceded by their invalidation, mlink.Queue re-seats its cached tail cursor whenever the entry it hangs on can be detached and pairs each size change with exactly one "
-      "insert/remove/clear; in package ring every next-link write has its mirror prev-link write in the same block; Each iterators stop when told. (R-NOOP-GUARD, package ring) a no-op exit taken on x.f == v is justified only by a store of v into x.f in the same function; (R-LEN-EFFECT, package stack) every path of Push/Add/Pop/Clear that rewrites the list leaves its length at L0+1 / L0−1 / 0. Does NOT decide that the "
+      "insert/remove/clear; in package ring every next-link write has its mirror prev-link write in the same block; Each iterators stop when told. (R-NOOP-GUARD, package ring) a no-op exit taken on x.f == v is justified only by a store of v into x.f in the same function; (R-LEN-EFFECT, package stack) every path of Push/Add/Pop/Clear that rewrites the list leaves its length at L0+1 / L0−1 / 0. (R-WRAP-CHECKED) every node Ring.At returns that was reached through a link has been compared with the receiver. Does NOT decide that the "
       "resulting sequences or cycles are the documented ones, Stack behaviour beyond Each, or termination of ring walks.",
       BASE_NOTE + " Assumes iteration callbacks do not mutate the container.",
       "DESIGN.md section 3, C10")
@@ -48,7 +48,7 @@ claim("C12", "other", "provenance (origin) analysis of every write event with ca
       "Decides: none of LCS/LCSFunc/LIS/LISFunc/LNDS/LNDSFunc/bisectRight/EditScript/editScriptFunc nor their closures can write through an input slice (every element store, "
       "copy destination, append base, clear and mutating-callee argument has a provenance of allocations made in the function); and in LISFunc/LNDSFunc the strictness of the "
       "fast-path comparison agrees with the lean of the binary search used (LNDS: >= with right-leaning search read from bisectRight's body; LIS: > with left-leaning "
-      "slices.BinarySearchFunc) - the only documented difference between the two. (R-CMP-SIGN) comparison results are tested by sign only; the strict variant takes no shortcut on slices.IsSorted*; (R-SIBLING-GUARD) where an element of one input is compared with an element of the other, the dominating guards constrain both indices or neither. LCS hands its two inputs to LCSFunc as they are. Does NOT decide that the results are subsequences of maximum length.",
+      "slices.BinarySearchFunc) - the only documented difference between the two. (R-CMP-SIGN) comparison results are tested by sign only; the strict variant takes no shortcut on slices.IsSorted*; (R-SIBLING-GUARD) where an element of one input is compared with an element of the other, the dominating guards constrain both indices or neither. LCS hands its two inputs to LCSFunc as they are. LCSFunc, LISFunc and LNDSFunc hand back a parameter (directly or through a helper) only where it is known to be empty. Does NOT decide that the results are subsequences of maximum length.",
       BASE_NOTE + " Standard-library mutators are a frozen table; user comparison callbacks are outside the rule.",
       "DESIGN.md section 3, C12")
 claim("C18", "other", "fresh-and-non-nil provenance analysis with per-function summaries; guarded-update path rule",
@@ -133,7 +133,7 @@ claim("C04", "other", "dominance guard (!= nil) with kill check on every use of 
 claim("C11", "other", "provenance of span fields in Edit literals; index-variable side separation; opcode/field table; exhaustiveness of EditOp switches (typed AST)",
       "Decides structural clauses: every Edit the script builder creates takes X from a slice expression over lhs and Y from one over rhs ('the very spans', which value-comparing "
       "tests cannot see) and bounds each span with its own side's offsets; every Edit literal in packages slice and mdiff sets exactly the fields documented for its opcode; "
-      "every switch over EditOp in non-test code handles all four opcodes or has a default arm that panics or returns an error. (cursor families) a cursor family of the builder that indexes or bounds spans of an input never also indexes the common subsequence; (R-SIBLING-GUARD) guards before a comparison of an element of each input constrain both indices or neither. The run of kept elements is counted from the offset its Emit span starts at; no Edit is built under a boolean carried round the loop and never cleared; spans assigned after construction are held to the same provenance as literals. Does NOT decide that applying the script yields "
+      "every switch over EditOp in non-test code handles all four opcodes or has a default arm that panics or returns an error. (cursor families) a cursor family of the builder that indexes or bounds spans of an input never also indexes the common subsequence; (R-SIBLING-GUARD) guards before a comparison of an element of each input constrain both indices or neither. The run of kept elements is counted from the offset its Emit span starts at; no Edit is built under a boolean carried round the loop and never cleared; spans assigned after construction are held to the same provenance as literals. (R-LCS-FRESH) LCSFunc hands back a parameter only where it is known to be empty. Does NOT decide that applying the script yields "
       "rhs, minimality (LCS length), canonical form, emptiness iff equal, or exact span bounds.",
       BASE_NOTE,
       "DESIGN.md section 3, C11")
@@ -143,7 +143,7 @@ claim("C13", "other", "who-may-write rule on Diff.Edits; provenance/aliasing rul
       "(so merging cannot write into Left, Right, the script or the other span); Unify edits the chunk's own edit list (not local copies) and keeps chunks apart only across a "
       "strict gap; every update of a chunk's left range has the mirrored update of its right range in the same block (in New: each range end advances together with that side's "
       "running position, by the number of X resp. Y lines of the edit); no chunk's edit list is a slice of the script; an index into Left/Right is bounded by its own length, not "
-      "only by the sibling's. (R-SIBLING-GUARD) where d.Left[p] is compared with d.Right[q] the dominating guards constrain both indices or neither. (R-DROP-GUARDED) an edit leaves a chunk's list only under a test on its span's length or after its span was appended to its neighbour; (R-JOIN-LAST) no span is trimmed after the boundary context edits were joined in the same iteration; (R-ALLOC-BOUNDED) no allocation sized by the bare context count. Does NOT decide that ranges and edits describe a correct "
+      "only by the sibling's. (R-SIBLING-GUARD) where d.Left[p] is compared with d.Right[q] the dominating guards constrain both indices or neither. (R-DROP-GUARDED) an edit leaves a chunk's list only under a test on its span's length or after its span was appended to its neighbour; (R-JOIN-LAST) no span is trimmed after the boundary context edits were joined in the same iteration; (R-ALLOC-BOUNDED) no allocation sized by the bare context count. (R-MERGE-TARGET) the chunk a successor is compared and merged with is read from the kept chunks each time round or is a variable the loop updates. Does NOT decide that ranges and edits describe a correct "
       "patch; context found by positional comparison across a neighbouring chunk (a data-dependent fault known from earlier dynamic work) has no structural signature.",
       BASE_NOTE,
       "DESIGN.md section 3, C13")
